@@ -80,6 +80,10 @@ pub trait Property: Sync {
     fn max_shrink_iters(&self) -> u32 {
         1500
     }
+    /// the form of a case written into replay files (generator-independent where possible)
+    fn freeze(&self, case: &Self::Case) -> Self::Case {
+        case.clone()
+    }
 }
 
 #[derive(Clone, Debug)]
@@ -142,7 +146,7 @@ impl RunOpts {
     }
 }
 
-static SAVED_KNOWN: AtomicBool = AtomicBool::new(false);
+static SAVED_KNOWN: Mutex<Vec<String>> = Mutex::new(Vec::new());
 
 #[derive(Default)]
 struct Agg {
@@ -325,8 +329,16 @@ pub fn run_property<P: Property>(p: &P, opts: &RunOpts) -> RunSummary {
                             }
                             CaseResult::Violation(v, rep) => {
                                 if let Some(k) = known_match(known, p.id(), &v.signature) {
-                                    if std::env::var("VERIF_SAVE_KNOWN").is_ok() && !SAVED_KNOWN.swap(true, Ordering::Relaxed) {
-                                        let path = write_replay(p.id(), &case, &v, "");
+                                    if std::env::var("VERIF_SAVE_KNOWN").is_ok() && {
+                                        let mut g = SAVED_KNOWN.lock().unwrap();
+                                        if g.contains(&v.signature) {
+                                            false
+                                        } else {
+                                            g.push(v.signature.clone());
+                                            true
+                                        }
+                                    } {
+                                        let path = write_replay(p.id(), &p.freeze(&case), &v, "");
                                         eprintln!("saved known-finding case to {}", path);
                                     }
                                     if !failed.get() {
@@ -359,7 +371,7 @@ pub fn run_property<P: Property>(p: &P, opts: &RunOpts) -> RunSummary {
                         };
                         let dbg = format!("{:?}", minimal);
                         let dbg = if dbg.len() > 20000 { dbg[..20000].to_string() } else { dbg };
-                        let mut case_json = serde_json::to_value(&minimal).unwrap_or(Value::Null);
+                        let mut case_json = serde_json::to_value(&p.freeze(&minimal)).unwrap_or(Value::Null);
                         if let Some(o) = case_json.as_object_mut() {
                             o.insert("__debug".into(), Value::String(dbg));
                         }
